@@ -290,8 +290,19 @@ func (m *Master) run() int {
 					}
 				}
 				fmt.Fprintf(w.stdin, "%d\n", ti)
+				t0 := time.Now()
 				res, died := m.await(w, hardStop)
 				mu.Lock()
+				if f := os.Getenv("VERIF_TASKTIMES"); f != "" { // tuning aid: wall time per task
+					if fh, err := os.OpenFile(f, os.O_APPEND|os.O_CREATE|os.O_WRONLY, 0o644); err == nil {
+						ev := int64(0)
+						if res != nil {
+							ev = res.Evaluations
+						}
+						fmt.Fprintf(fh, "%.1f\t%d\t%s\n", time.Since(t0).Seconds(), ev, tasks[ti].Name)
+						fh.Close()
+					}
+				}
 				if died != "" {
 					m.workerDied(tasks[ti].Name, w, died)
 					w = nil
